@@ -106,5 +106,6 @@ Confluent == Terminal => /\ Accepted = PrepareVerdict(WF)
                          /\ (Accepted => dag = ExpectedDAG(WF))
 EdgeSeq(S) == LET RECURSIVE F(_) F(T) == IF T = {} THEN <<>> ELSE LET x == CHOOSE y \in T : TRUE IN <<x>> \o F(T \ {x}) IN F(S)
 Export == Terminal =>
-            PrintT(<<"PREPARE", ci, Accepted, IF Accepted THEN ToJson([nodes |-> EdgeSeq(dag.nodes), edges |-> EdgeSeq(dag.edges)]) ELSE "{}">>)
+            PrintT(<<"PREPARE", ci, Accepted, IF Accepted THEN ToJson([nodes |-> EdgeSeq(dag.nodes), edges |-> EdgeSeq(dag.edges),
+                                                                      req |-> [id \in DOMAIN WF.outputs |-> EdgeSeq(RequiredKeys(WF.outputs[id]))]]) ELSE "{}">>)
 =============================================================================
